@@ -11,7 +11,7 @@
     from a reader on [bs] and on [bs ++ x]. *)
 From Coq Require Import String.
 From Coq Require Import List NArith Bool Lia.
-From Borsh Require Import Bytes BytesFacts Result Loop LoopFacts Ty TyInd Ser De Entry CodecFacts ParseFacts.
+From Borsh Require Import Bytes BytesFacts Result Loop LoopFacts Ty TyInd Ser De Entry CodecFacts ParseFacts Io IoProofsSched.
 Import ListNotations.
 Local Open Scope N_scope.
 
@@ -255,4 +255,19 @@ Proof.
   - pose proof (dec_PS c t bs) as P. unfold dec_slice in E. rewrite E in P. exact P.
   - destruct (msg_eq_dec m MUnexpectedLength) as [->|Hm]; [reflexivity|].
     exfalso. apply Hne. now apply dec_refusal_stable.
+Qed.
+
+(** * Through any reader schedule
+    With [IoProofsSched.fragment_iff]: however the two runs are fragmented and interrupted, a refusal
+    that does not ask for more bytes is the same refusal when more bytes follow in the stream. *)
+Theorem sched_refusal_stable shim c t d x sch sch' k m :
+  benign sch -> benign sch' ->
+  dec (sched_reader shim) c t {| data := d; sched := sch |} = Err k m -> m <> MUnexpectedLength ->
+  dec (sched_reader shim) c t {| data := d ++ x; sched := sch' |} = Err k m.
+Proof.
+  intros B B' E Hm.
+  destruct (fragment_iff shim c t d sch B) as (_ & He & _).
+  apply He in E.
+  destruct (fragment_iff shim c t (d ++ x) sch' B') as (_ & He' & _).
+  apply He'. exact (dec_refusal_stable c t d k m x E Hm).
 Qed.
